@@ -97,8 +97,11 @@ def r2_stacking(idx, r):
     fin = [s for s in iter_stores(f.node) if s.chain == "self.linked.a.spatialGrid._bounds"]
     r.require(len(bd) == 1 and norm(bd[0].value) == "array(mesh)" and len(fin) == 1 and norm(fin[0].value) == "tuple(bounds)", "grid-bounds-equal-mesh", f, msg="the axial grid bounds are replaced by the new elevations")
     cb = idx.func(AX + "axialExpansionChanger._checkBlockHeight")
-    neg = next((n for n in walk_local(cb.node) if isinstance(n, ast.If) and norm(n.test) == f"{cb.params()[0]}.getHeight() < 0.0"), None)
+    hp = cb.params()[0]
+    neg = next((n for n in walk_local(cb.node) if isinstance(n, ast.If) and norm(n.test) in (f"{hp}.getHeight() < 0.0", f"{hp}.getHeight() <= 0.0")), None)
     r.require(neg is not None and always_exits(neg.body) and any(isinstance(x, ast.Raise) for x in neg.body), "negative-height-raises", cb, msg="a negative block height must raise")
+    if neg is not None:
+        r.require(norm(neg.test) == f"{hp}.getHeight() <= 0.0", "zero-height-raises", cb, node=neg, msg="the property demands positive heights: a block squeezed to exactly zero height must be refused too (`<= 0.0`)")
     sa = idx.method(CH, "setAssembly")
     r.require(any(dotted(c.func) == "self._isTopDummyBlockPresent" for c in iter_calls(sa.node)), "dummy-block-checked", sa, msg="setAssembly must check for the top dummy block")
     for meth, seq in (("performThermalAxialExpansion", ["self.setAssembly", "self.expansionData.updateComponentTempsBy1DTempField", "self.expansionData.computeThermalExpansionFactors", "self.axiallyExpandAssembly"]),
